@@ -28,7 +28,7 @@ def arena_claim(text, ref):
 
 CLAIMS.update({
  "C03": arena_claim("Proved on the arena model for all states (step level): reset_to(checkpoint) restores current chunk, position and allocated() exactly, releases nothing and makes no base-allocator request; scope enter/exit are exactly this pair and kill exactly the blocks created inside; allocation only appends chunks; replaying a workload (also in a new scope) needs no new memory; a reset() round that acquires nothing stays stable. Partial: finiteness of the reset loop (growth argument) and scoped_aligned/alloc_try_with at stepCore level rely on the same resetTo lemmas. Tie: correspondence + restore/replay oracles on the real crate.", "§7 C03"),
- "C05": arena_claim("Proved on the arena model: drop releases every chunk exactly once (permutation of the owned list), reset releases all but the last (= largest) chunk, reset_to_start / reset_to / deallocate / fast-path allocation make no request, a new chunk's size lies between requested and granted with the request's alignment, failed/invalid requests own nothing, an unallocated arena stays silent. Partial: the exactly-once ledger as one induction over all operations is stated as target. Tie: request-sequence correspondence + ledger/guard-byte/poison oracle of the test base allocators.", "§7 C05"),
+ "C05": arena_claim("Proved on the arena model: drop releases every chunk exactly once (permutation of the owned list), reset releases all but the last (= largest) chunk, reset_to_start / reset_to / deallocate / fast-path allocation make no request, a new chunk's size lies between requested and granted with the request's alignment, failed/invalid requests own nothing, an unallocated arena stays silent. History level (Props/Hist.lean): along every finite history grants minus releases equal the chunks owned, every release matches an earlier grant (same pointer and alignment, size between requested and granted), only drop and reset release anything, and after drop nothing is outstanding (C05.history_ledger / history_releases_match / history_drop_releases_all). Tie: request-sequence correspondence + ledger/guard-byte/poison oracle of the test base allocators.", "§7 C05"),
  "C07": arena_claim("Proved on the arena model: whenever alloc/allocGeneric/inAnotherChunk/reserve/grow/shrink return an error value the state is intact (same live blocks, same bytes, same geometry, positions up to the current chunk unchanged) and at most one request was made; a refusing base allocator yields an error value, not a fault; size overflow yields capacity-overflow with no request; claimed arenas yield `claimed`. Partial: no-fault of grow/shrink's in-place arithmetic before the allocation attempt is a target. Tie: correspondence under injected failures (each index, subsets, fail-all) + all content/ledger/invariant oracles after failures.", "§7 C07"),
  "C13": arena_claim("Proved on the arena model: deallocating the newest block and requesting the same layout again returns the same address (up and down); growing the newest block upwards with room stays in place; deallocate/shrink of any other block is the identity; DEALLOCATES=false / WithoutDealloc make deallocate the identity, SHRINKS=false / WithoutShrink (fitting alignment) make shrink the identity. Partial: allocated() monotonicity for the alignment-raising shrink under opt-out is a target (covered by the oracle). Tie: correspondence + same-address / allocated-monotonicity oracles.", "§7 C13"),
  "C14": arena_claim("Proved on the arena model (using C11 on the dummy range): on a claimed handle every memory request returns the `claimed` error with the state unchanged, deallocate and fitting shrink are the identity, statistics are all zero, a second claim panics; claim followed by claim-end is the identity and everything done through the guard is kept. Tie: correspondence with interleaved operations on original and claimant + claimed-handle oracles.", "§7 C14"),
@@ -37,9 +37,9 @@ CLAIMS.update({
 })
 
 CLAIMS.update({
- "C01": arena_claim("Proved on the arena model: a block carved by the fast path is aligned, inside the old free range of the current chunk, disjoint from everything on the allocated side and inside the content range (via C11); prepare/range results likewise; the ghost invariant LiveOK (every live block inside a chunk at or before the current one, on the allocated side, aligned, pairwise byte-disjoint) is preserved by allocate (fast path, next chunk, new chunk, refused), allocLayout, deallocate (all wrappers) and scope exit. Partial: LiveOK preservation for grow/shrink/commit/alloc_try_with/reset-family and the single inductive invariant over all operations are stated as targets. Tie: address-exact correspondence + interval/containment/alignment oracle on every live block after every operation.", "§7 C01"),
- "C02": arena_claim("Proved on the arena model: write/copy/zero frame laws (only the addressed bytes change, memmove semantics, overlapping copy_nonoverlapping faults); allocation, deallocation, reserve, reset-family, reset_to and alignment changes never write a byte; grow, shrink, WithoutShrink::shrink, shrink_slice and both prepared commits carry over the first min(old,new) bytes and change no byte outside the new block, in every branch; zeroed allocation and the tail of zeroed grow read 0; allocate/deallocate/scope-exit keep the bytes of all live blocks. Partial: the live-bytes statement at stepCore level for grow/shrink/commit/alloc_try_with is a target. Tie: checksum correspondence + shadow-copy oracle (every live block re-read after every operation).", "§7 C02"),
- "C10": arena_claim("Proved on the arena model: statistics identities (allocated + remaining = capacity ≤ size, count = number of chunks, size = capacity + count·header, zeros when claimed/unallocated), position inside the content range and header inside the block; the geometry invariant GeomInv (16 | size, header fits, position in range and minAlign-aligned, …) is preserved by every model function (tryCur, slow path, chunk creation, deallocate, grow, shrink, reserve, reset-family, reset_to, align_to, prepared commits), each with a no-fault theorem — in particular the slow path's unreachable_unchecked is unreachable (via C12) and copy_nonoverlapping never overlaps; chunk sizes strictly increase. Partial: no single stepCore-level induction (needs the C01 ghost invariant); any_stats is tied by correspondence/oracle only. Tie: stats/any_stats/chunk-list correspondence + identity oracles after every operation.", "§7 C10"),
+ "C01": arena_claim("Proved on the arena model: a block carved by the fast path is aligned, inside the old free range of the current chunk, disjoint from everything on the allocated side and inside the content range (via C11); prepare/range results likewise; the ghost invariant LiveOK (every live block inside a chunk at or before the current one, on the allocated side, aligned, pairwise byte-disjoint) is preserved by allocate (fast path, next chunk, new chunk, refused), allocLayout, deallocate (all wrappers) and scope exit. History level (Props/Hist.lean): one invariant Inv (geometry, disjoint chunks, LiveOK, frame/checkpoint/prepared well-formedness) is proved preserved by ALL 34 operation constructors and lifted by induction: in every state reachable by any finite history with a correct base allocator every live block is inside owned content memory, aligned and pairwise byte-disjoint (C01.reachable_liveOK / reachable_live_blocks). Tie: address-exact correspondence + interval/containment/alignment oracle on every live block after every operation.", "§7 C01"),
+ "C02": arena_claim("Proved on the arena model: write/copy/zero frame laws (only the addressed bytes change, memmove semantics, overlapping copy_nonoverlapping faults); allocation, deallocation, reserve, reset-family, reset_to and alignment changes never write a byte; grow, shrink, WithoutShrink::shrink, shrink_slice and both prepared commits carry over the first min(old,new) bytes and change no byte outside the new block, in every branch; zeroed allocation and the tail of zeroed grow read 0; allocate/deallocate/scope-exit keep the bytes of all live blocks. History level (Props/Hist.lean): across any step of any operation and along whole histories the bytes of every block that stays live and is not the write target are unchanged (C02.reachable_live_bytes / history_live_bytes). Tie: checksum correspondence + shadow-copy oracle (every live block re-read after every operation).", "§7 C02"),
+ "C10": arena_claim("Proved on the arena model: statistics identities (allocated + remaining = capacity ≤ size, count = number of chunks, size = capacity + count·header, zeros when claimed/unallocated), position inside the content range and header inside the block; the geometry invariant GeomInv (16 | size, header fits, position in range and minAlign-aligned, …) is preserved by every model function (tryCur, slow path, chunk creation, deallocate, grow, shrink, reserve, reset-family, reset_to, align_to, prepared commits), each with a no-fault theorem — in particular the slow path's unreachable_unchecked is unreachable (via C12) and copy_nonoverlapping never overlaps; chunk sizes strictly increase. History level (Props/Hist.lean): GeomInv, the statistics identities, position alignment and strictly increasing chunk sizes hold in every reachable state of every finite history (C10.reachable_*); no operation faults from a reachable state except three claimed-handle cases left as `reachable_noFault_partial`. any_stats is tied by correspondence/oracle only. Tie: stats/any_stats/chunk-list correspondence + identity oracles after every operation.", "§7 C10"),
  "C18": arena_claim("Proved on the arena model: after align_to::<N> the position is a multiple of N (and of the old minimum alignment), inside the content range, moved by < N towards the free side; the align guard restores a multiple of the outer alignment; reset_to yields a multiple of the alignment in force and the exact checkpoint address when that is aligned (scoped_aligned exit restores the entry position exactly); the position is aligned after every allocation including chunk switches; with_settings panics iff (¬claimable ∧ claimed) ∨ (guaranteed-allocated ∧ unallocated). Tie: correspondence + position % N oracles at entry, after every operation and after exit, including unwinding.", "§7 C18"),
 })
 CLAIMS["C09"] = dict(engine="strs", technique="Lean 4 proofs over a hand-written byte-level string model (own UTF-8 decoder proved inverse to Lean core's encoder and equivalent to core's validity predicate); tie = correspondence harness against the real string types + std::string::String as direct oracle",
